@@ -78,7 +78,7 @@ TEXTS = {
     "C14": {
         "technique": SIM + "interleavings of registrations, updates (also aborted), handler changes over 2-3 policies sharing class ids",
         "design_ref": "DESIGN.md 4 (C14)",
-        "text": "After every event on one policy, everything published for each other policy (dispatch data, v-table pointer tables, hash parameters, control table, static v-table pointers, slots and strides, next cells), its catalogs, its handler and its held virtual_ptrs must be unchanged; each policy is also checked against its own model, and (solo differential) re-run alone in a pristine process with identical results. Engine tw2 does the same through the real registration front-end: two typed-world policies with interleaved histories sharing policy-independent definition functions, then each history alone; reports, outcome tables and verdicts must be identical.",
+        "text": "After every event on one policy, everything published for each other policy (dispatch data, v-table pointer tables, hash parameters, control table, static v-table pointers, slots and strides, next cells), its catalogs, its handler and its held virtual_ptrs must be unchanged; an error raised by a call of one policy must be delivered to the handler installed for that policy (every harness handler knows which policy it was installed for); each policy is also checked against its own model, and (solo differential) re-run alone in a pristine process with identical results. Engine tw2 does the same through the real registration front-end: two typed-world policies with interleaved histories sharing policy-independent definition functions, then each history alone; reports, outcome tables and verdicts must be identical.",
         "note": "policies are distinct types built with basic_policy / rebind",
     },
     "C15": {
@@ -102,7 +102,7 @@ TEXTS = {
     "C18": {
         "technique": SIM + "constructor / destructor histories of registration objects vs a vector model",
         "design_ref": "DESIGN.md 4 (C18)",
-        "text": "After every load or unload the three kinds of catalog (classes, methods, each method's definitions) must enumerate exactly the live registrations, once each, in registration order, with matching size() and empty(); re-registration after removal is part of every history.",
+        "text": "After every load or unload the three kinds of catalog (classes, methods, each method's definitions) must enumerate exactly the live registrations, once each, in registration order, with matching size() and empty(); re-registration after removal is part of every history, and so is a method registration object destroyed and constructed again in place while its definitions stay registered.",
         "note": "list-sim drives detail::static_list directly: every sequence of <= 5 operations over 3 nodes exhaustively, then random histories of up to 120 operations over 1-6 nodes",
     },
 }
